@@ -600,6 +600,17 @@ class Gen:
             rhs = self.real_expr(2)
             if self.chance(20):
                 rhs = C(self.choice(REAL_CONSTS))      # a[k] <- 7: the subscript is the only thing read
+                ivs = []
+                for nm in self.names_of(INT):
+                    v = self.ints[nm]
+                    if 0 <= v < n:
+                        ivs.append(V(nm))
+                    if 0 <= v - 1 < n:
+                        ivs.append(normal(["sum", V(nm), C(-1)]))
+                if ivs:
+                    idx = self.choice(ivs)
+                    self.features.add("literal_to_variable_subscript")
+                    return [["assign", a, [idx], rhs, []]]
             if rhs[0] == "call":
                 # the builder turns "x <- f(...)" into a call statement, whose assignees must be plain variables
                 rhs = normal(["sum", rhs, C(1)])
@@ -1115,7 +1126,7 @@ class Gen:
     def block(self, depth, nops, in_if=False):
         ops = []
         for _ in range(nops):
-            kinds = ["real"] * 5 + ["uvec"] * 3 + ["flag", "int", "newarr", "arrwrite", "arrwrite", "arrwhole",
+            kinds = ["real"] * 5 + ["uvec"] * 3 + ["flag", "int", "int", "newarr", "arrwrite", "arrwrite", "arrwhole",
                                                  "call", "call", "yield", "yield", "if", "if", "time"]
             if in_if:
                 kinds += ["exit", "exit"]
@@ -1332,6 +1343,8 @@ def methods(draw, profile=None):
         if g.chance(60) and p["time_advance"]:
             body += g.op_time_advance()
         nxt = draw(st.sampled_from(names))
+        if nph > 1 and draw(st.integers(0, 9)) < 6:
+            nxt = names[(i + 1) % nph]          # mostly a cycle through all phases, so that later phases are reached
         if p["force_phases"]:
             nxt = p["force_phases"][i][1]
         phases.append({"name": name, "next": nxt, "body": body, "kw_reverse": kw_reverse, "surface": surface})
